@@ -169,6 +169,7 @@ func (g *lockGate) RemoveAll(name string) error {
 // a file created inside the lock directory (heartbeat): on the in-memory backend it re-creates a removed
 // lock directory — logged as `hb<i>`
 func (g *lockGate) OpenFile(name string, flag int, perm os.FileMode) (afero.File, error) {
+	g.hook("OpenFile", name)
 	if filepath.Dir(filepath.Clean(name)) != g.sh.lockPath || flag&os.O_CREATE == 0 {
 		return g.Fs.OpenFile(name, flag, perm)
 	}
@@ -705,6 +706,57 @@ func lockMutexMain(args []string) {
 			}
 			_ = holder.Unlock(ctx)
 			_ = contender.Unlock(ctx)
+		}()
+	}
+	// ---------------- W8: the holder changes between a contender's listing of the lock directory and its look at the heart-beat file ----------------
+	for _, backend := range []string{"mem", "os"} {
+		func() {
+			w := newLockWorld(backend, []int{9, 1, 2, 3}, false)
+			defer w.cleanup()
+			caseTxt := "lockcase w8-holder-changes-between-listing-and-stat " + backend
+			rep.Eval(caseTxt, true)
+			rep.Hist("w8")
+			if err := w.locks[9].TryLock(ctx); err != nil {
+				rep.Fail(hx.Failure{Kind: "harness-error", Key: "w8-holder", Case: caseTxt, Detail: err.Error()})
+				return
+			}
+			time.Sleep(70 * time.Millisecond) // the first holder's heart-beat file exists
+			heartbeat := filepath.Join(w.sh.lockPath, "L.lock")
+			release := make(chan struct{})
+			// the second holder's first heart-beat write is slow: held back for the few milliseconds of the scenario
+			w.gates[1].before = func(op, name string) {
+				if filepath.Clean(name) == heartbeat {
+					<-release
+				}
+			}
+			var once sync.Once
+			var berr error = fmt.Errorf("not attempted")
+			w.gates[2].before = func(op, name string) {
+				if (op == "Stat" || op == "Lstat") && filepath.Clean(name) == heartbeat {
+					once.Do(func() {
+						// the contender has listed the first holder's heart-beat file; before it looks at it the first holder
+						// releases and a second one acquires
+						w.sh.begin(9)
+						_ = w.locks[9].Unlock(ctx)
+						w.sh.end(9)
+						berr = w.locks[1].TryLock(ctx)
+					})
+				}
+			}
+			rerr := w.locks[2].ReleaseIfStale(ctx)
+			derr := w.locks[3].TryLock(ctx)
+			close(release)
+			if berr == nil && derr == nil {
+				rep.Fail(hx.Failure{Kind: "impl-violates-property", Key: "two-holders:live-lock-released-as-stale-while-its-holder-changed", Case: caseTxt,
+					Expected: "the second holder's lock (a few milliseconds old) is not judged stale: ReleaseIfStale leaves it, a third contender is refused",
+					Observed: fmt.Sprintf("second holder's TryLock: %v; ReleaseIfStale: %v; third contender's TryLock: %v (two holders)", berr, rerr, derr)})
+			}
+			if berr != nil {
+				rep.Hist("w8:second-holder-did-not-acquire")
+			}
+			for _, i := range []int{1, 3} {
+				_ = w.locks[i].Unlock(ctx)
+			}
 		}()
 	}
 	// ---------------- random concurrent cycles -------------------------------------------------------
